@@ -569,20 +569,61 @@ Definition payload_entry (d : decl) (st : dstate) : dres (list (string * value))
   | None => Ok []
   end.
 
+(** [decode_partial(parent)]: constraint checks, then the child's own fields parsed
+    from the parent's payload, which must be consumed entirely; the other data
+    fields are copied from the parent. *)
+Definition decode_partial (oc : bool) (fl : file) (sch : schema)
+           (rec : string -> list byte -> dres (value * list byte)) (lf : nat)
+           (d p : decl) (pobj : list (string * value)) : dres value :=
+  let pfields := iter_fields fl p in
+  let pcs := iter_constraints fl p in
+  let* _ :=
+    (fix checks (cs : list constr) : dres unit :=
+       match cs with
+       | [] => Ok tt
+       | c :: cs' =>
+           match get_num fl pfields pcs pobj (c_id c), constraint_N fl pfields c with
+           | Some actual, Some expected =>
+               if actual =? expected then checks cs' else Err ConstraintValueError
+           | _, _ => Panic UnwrapFail
+           end
+       end) (decl_constraints d) in
+  let copied :=
+    filter (fun kv => mem_str (fst kv) (data_field_ids fl d)
+                      && negb (mem_str (fst kv) (own_field_ids d))) pobj in
+  match decl_payload p with
+  | Some _ =>
+      match obj_payload pobj with
+      | Some buf =>
+          let* st := dec_fields oc fl sch rec lf d (decl_fields d) (init_state buf) [] 0 in
+          match st_span st with
+          | [] =>
+              let* pl := payload_entry d st in
+              Ok (VObj (pl ++ st_vals st ++ copied)%list)
+          | _ => Err TrailingBytesError
+          end
+      | None => Panic UnwrapFail
+      end
+  | None => Ok (VObj copied)
+  end.
+
+Definition rec_of (self : decl -> list byte -> dres (value * list byte)) (fl : file)
+           (tid : string) (sp : list byte) : dres (value * list byte) :=
+  match lookup_decl fl tid with
+  | Some ((DStruct _ _ _ _ | DPacket _ _ _ _) as d') => self d' sp
+  | Some (DCustomField _ (Some w) _) =>
+      (* generate_custom_field_decl: guarded *)
+      if len sp <? w / 8 then Err LengthError
+      else let* (x, sp') := get_uint (f_endian fl) w sp in Ok (VNum x, sp')
+  | _ => Panic GenTodo
+  end.
+
 Fixpoint rust_dec_decl (fuel : nat) (oc : bool) (fl : file) (sch : schema) (d : decl)
          (bs : list byte) : dres (value * list byte) :=
   match fuel with
   | O => Diverge
   | S fuel' =>
-      let rec := fun (tid : string) (sp : list byte) =>
-        match lookup_decl fl tid with
-        | Some ((DStruct _ _ _ _ | DPacket _ _ _ _) as d') => rust_dec_decl fuel' oc fl sch d' sp
-        | Some (DCustomField _ (Some w) _) =>
-            (* generate_custom_field_decl: guarded *)
-            if len sp <? w / 8 then Err LengthError
-            else let* (x, sp') := get_uint (f_endian fl) w sp in Ok (VNum x, sp')
-        | _ => Panic GenTodo
-        end in
+      let rec := rec_of (rust_dec_decl fuel' oc fl sch) fl in
       match get_parent fl d with
       | None =>
           let* st := dec_fields oc fl sch rec fuel' d (decl_fields d) (init_state bs) [] 0 in
@@ -592,38 +633,8 @@ Fixpoint rust_dec_decl (fuel : nat) (oc : bool) (fl : file) (sch : schema) (d : 
           let* (pv, trailing) := rust_dec_decl fuel' oc fl sch p bs in
           match pv with
           | VObj pobj =>
-              (* decode_partial *)
-              let pfields := iter_fields fl p in
-              let pcs := iter_constraints fl p in
-              let* _ :=
-                (fix checks (cs : list constr) : dres unit :=
-                   match cs with
-                   | [] => Ok tt
-                   | c :: cs' =>
-                       match get_num fl pfields pcs pobj (c_id c), constraint_N fl pfields c with
-                       | Some actual, Some expected =>
-                           if actual =? expected then checks cs' else Err ConstraintValueError
-                       | _, _ => Panic UnwrapFail
-                       end
-                   end) (decl_constraints d) in
-              let copied :=
-                filter (fun kv => mem_str (fst kv) (data_field_ids fl d)
-                                  && negb (mem_str (fst kv) (own_field_ids d))) pobj in
-              match decl_payload p with
-              | Some _ =>
-                  match obj_payload pobj with
-                  | Some buf =>
-                      let* st := dec_fields oc fl sch rec fuel' d (decl_fields d) (init_state buf) [] 0 in
-                      match st_span st with
-                      | [] =>
-                          let* pl := payload_entry d st in
-                          Ok (VObj (pl ++ st_vals st ++ copied)%list, trailing)
-                      | _ => Err TrailingBytesError
-                      end
-                  | None => Panic UnwrapFail
-                  end
-              | None => Ok (VObj copied, trailing)
-              end
+              let* v := decode_partial oc fl sch rec fuel' d p pobj in
+              Ok (v, trailing)
           | _ => Panic UnwrapFail
           end
       end
